@@ -37,8 +37,8 @@ var upperCase = regexp.MustCompile(`[A-Z]`)
 
 // specScope: the part of the property's quantifier that is not already the reference's own
 // validity predicate.  C08: numeric identifiers of at most 18 digits; C13: letters in a single
-// case (lower) and numbers below 2^63 (go-univers keeps larger ones as text; "numbers incl. 0
-// and multi-digit" is read as machine integers); C12: numbers of any length (since fix 94889ac;
+// case (lower); numbers of any length (those of 2^63 or more are the recorded finding
+// F-gem-long-number: go-univers keeps them as text); C12: numbers of any length (since fix 94889ac;
 // before it the same 18-digit reading applied, and hid the defect of DESIGN 13.12).
 func specScope(id, eco, s string) bool {
 	switch id {
@@ -47,7 +47,9 @@ func specScope(id, eco, s string) bool {
 	case "C13":
 		// the property's shape: groups are .<letters>[N] or -<letters>[.N]: no empty '-' field
 		t := strings.TrimSpace(s)
-		return !longDigits.MatchString(s) && !upperCase.MatchString(s) && !strings.Contains(t, "--") && !strings.HasSuffix(t, "-")
+		// numbers of any length are compared; those that do not fit int fall into the class of the
+		// recorded finding F-gem-long-number (findings.go)
+		return !upperCase.MatchString(s) && !strings.Contains(t, "--") && !strings.HasSuffix(t, "-")
 	}
 	return true
 }
